@@ -160,6 +160,19 @@ def check_string(s, names, mode, win, out, stream, converse=False):
                     out.violation(dict(case, name=c, impl=got, want=eq, problem='accepts something else' if got else 'rejects an equivalent spelling'),
                                   size=len(s) * 10 + len(names) + len(c), bucket=('nbr', mode, win, converse, got))
                     return
+            sepset = '/\\' if win else '/'
+            if mode == 'gl' and not converse and s[0] not in sepset and s[1:2] != ':' and any(ch in sepset for ch in s.rstrip(sepset)):
+                # a pattern that contains a separator (however escape() had to write it) is not a bare base name: MATCHBASE adds nothing
+                mb = G.compile(pat, flags=fl | G.MATCHBASE)
+                out.evaluations += 1
+                for c in (s, 'x/' + s, 'x/y/' + s) + (('x\\' + s,) if win else ()):
+                    got = bool(mb.match(c))
+                    if got != (c == s):
+                        out.violation(dict(case, name=c, impl=got, want=c == s, flags=list(names) + ['MATCHBASE'],
+                                           problem='with MATCHBASE: escape() of a string that contains a separator ' +
+                                           ('accepts a longer path' if got else 'does not match itself')),
+                                      size=len(s) * 10 + len(names) + len(c), bucket=('matchbase', win, got))
+                        return
     except util.HarnessBudget:
         out.stats['watchdog_skipped'] += 1
         return
